@@ -2,16 +2,18 @@
 import concurrent.futures, itertools, json, os, posixpath, shutil, subprocess, tempfile
 import core, findings
 from core import World, hx, Line, unhx
-from gen import Gen, PUNCT_NAMES, PCT_NAMES
+from gen import Gen, PUNCT_NAMES, PCT_NAMES, cfg_line
 from suites import run_suite
 
-LEAN_MODULES = ['GoSnaps.Props.C11', 'GoSnaps.Props.Tie.Path', 'GoSnaps.Props.Tie.Wrappers', 'GoSnaps.Props.Tie.Caller', 'GoSnaps.Props.C11Standalone']
+LEAN_MODULES = ['GoSnaps.Props.C11', 'GoSnaps.Props.Tie.Path', 'GoSnaps.Props.Tie.Wrappers', 'GoSnaps.Props.Tie.Flows', 'GoSnaps.Props.Tie.Registry', 'GoSnaps.Props.Tie.Caller', 'GoSnaps.Props.C11Standalone']
 
 DIRS = ['-', '', 'snaps', 'a/b/__snapshots__', '../shared', './x/../y', '/abs/dir', '/abs/./d/../e/', 'cov%d/100%']
 FILES = ['-', 'custom', 'my_test', 'api.v1', 'with.two.dots', 'rate_100%s', 'api/users']
 EXTS = ['-', '.txt', '.json', '.%v']
 NAMES = ['TestA', 'TestA/sub_case', 'TestA/x/y', 'TestB#01', 'TestR/ratio/1.25', 'TestV1.2'] + PUNCT_NAMES + [n.decode() if isinstance(n, bytes) else n for n in PCT_NAMES] + [
-    'TestTrail/', 'TestDbl//slash', 'TestDot/.', 'TestDot/..', 'TestDot/.hidden', 'Test_/_', 'TestLong/' + 'n' * 120]
+    'TestTrail/', 'TestDbl//slash', 'TestDot/.', 'TestDot/..', 'TestDot/.hidden', 'Test_/_', 'TestLong/' + 'n' * 120,
+    # names near the 255-byte limit of a file name that still fit with `_<k>.snap`: they are used as they are
+    'TestVeryLong/' + 'm' * 226 + 'a', 'TestVeryLong/' + 'm' * 226 + 'b']
 
 
 def formula(caller, d, fn, ext, name, standalone):
@@ -252,8 +254,63 @@ def run_program(prog, trimpath, othercwd, root):
 EVIDENCE = dict(rule='white-box: all Dir x Filename x Ext x API x name combinations through snapshotPath (exhaustive over the listed option values) compared with the formula of the property and with the Lean path model; programs: generated Go modules (call shapes direct/helper in non-test files/closure/goroutine/subtests/nested helpers/standalone/config, package depth 0-3, -trimpath on/off, binary executed from another working directory) run with the real go test; non-trivial = every case (each produces a location)')
 
 
+def ordinal_worlds():
+    """`the k-th standalone call of test N lives in <...>_<k>.snap<Ext>`: k counts the CALLS - a call that was
+    rejected (invalid JSON, a failing matcher) or that failed against its snapshot is still the k-th; the same for
+    the second execution of the test in the process"""
+    import docs
+    worlds = []
+    bad = ['{"a":', 'nul']
+    for n, (api, fn, ext) in enumerate(itertools.product(['sajson', 'sasnap', 'mixed'], [None, 'custom'], [None, '.txt'])):
+        w = World('c11-ordinal-%d' % n)
+        w.add('mode 0 -')
+        w.add(cfg_line(1, 'snaps', fn, ext))
+        stem = fn or 'TestOrd'
+        for texec in (1, 2):
+            w.add('begin %d %s' % (texec, hx(b'TestOrd')))
+            kj = ks = 0
+            for i in range(6):
+                kind = api if api != 'mixed' else ('sajson' if i % 2 else 'sasnap')
+                # standalone JSON and standalone text calls of one test count separately only when their locations differ
+                # (the default `.json` extension of MatchStandaloneJSON): the counter belongs to the location pattern
+                samepattern = ext is not None
+                if kind == 'sajson':
+                    kj += 1
+                    k = (kj + ks) if (samepattern and api == 'mixed') else kj
+                    e = ext if ext is not None else '.json'
+                    if i in (1, 4):
+                        op = 'sajson 1 %d s %s' % (texec, hx(bad[i % 2]))            # rejected: invalid document
+                        want = None
+                    elif i == 2:
+                        op = 'sajson 1 %d s %s %s' % (texec, hx('{"a":1}'), docs.any_matcher(['missing.path']))   # rejected: matcher fails
+                        want = None
+                    else:
+                        op = 'sajson 1 %d s %s' % (texec, hx('{"call":%d}' % i))
+                        want = '%s_%d.snap%s' % (stem, k, e)
+                else:
+                    ks += 1
+                    k = (kj + ks) if (samepattern and api == 'mixed') else ks
+                    op = 'sasnap 1 %d %s' % (texec, hx(b'call %d' % i))
+                    want = '%s_%d.snap%s' % (stem, k, ext or '')
+
+                def exp(line, raw, ww, want=want, texec=texec):
+                    names = [p_.rsplit(b'/', 1)[-1].decode() for p_ in line.writes]
+                    if want is None:
+                        return None if not names else 'a rejected call wrote %r' % names
+                    if texec == 1 and names != [want]:
+                        return 'this call is the one that lives in %r, it wrote %r' % (want, names)
+                    if texec == 2 and (names or [k_ for k_, _ in line.events]):
+                        return 'the second execution replays %r: expected a silent pass, got events %r writes %r' % (want, [k_ for k_, _ in line.events], names)
+                    return None
+                w.add(op, ('kth-standalone-call-lives-in-file-k', exp))
+            w.add('end %d' % texec)
+        worlds.append(w)
+    return worlds
+
+
 def run(ctx):
     run_suite(ctx, 'path.formula', path_worlds(), known=None, chunk=100)
+    run_suite(ctx, 'path.standalone-ordinal', ordinal_worlds(), known=None)
     run_suite(ctx, 'path.order-independent', order_worlds(), known=None)
     g = Gen(ctx.seed * 1000003 + 11)
     nprog = 16 if ctx.tier == 'quick' else 240
